@@ -41,11 +41,17 @@ def outline_ast(template: str, headers: list[str], values: list[str]):
 
 def _interp_chunk(cases):
     bad = []
+    shared = Compiler()
     for c in cases:
         t, hs, vs, r = uncp(c["t"]), [uncp(x) for x in c["h"]], [uncp(x) for x in c["v"]], uncp(c["r"])
         try:
             pk = Compiler().compile(outline_ast(t, hs, vs))
             p = pk[0]
+            again = shared.compile(outline_ast(t, hs, vs))      # a Compiler that has seen other tables before must say the same
+            strip = lambda ps: [{k: v for k, v in x.items() if k != "id"} | {"steps": [{a: b for a, b in s.items() if a != "id"} for s in x["steps"]]} for x in ps]  # noqa: E731
+            if strip(again) != strip(pk):
+                bad.append(dict(template=t, headers=hs, values=vs, spec=r, impl="re-used Compiler: " + str(strip(again)[0]["name"]), field="reuse"))
+                continue
             got = dict(name=p["name"], bg=p["steps"][0]["text"], text=p["steps"][1]["text"], cell=p["steps"][2]["argument"]["dataTable"]["rows"][0]["cells"][0]["value"],
                        content=p["steps"][3]["argument"]["docString"]["content"], media=p["steps"][3]["argument"]["docString"].get("mediaType"),
                        nomedia="mediaType" in p["steps"][4]["argument"]["docString"])
@@ -85,7 +91,7 @@ def types_ast(bg, sc, outline):
     s = {"scenario": {"id": "901", "location": loc, "tags": [], "keyword": "Scenario", "name": "s", "description": "",
                       "steps": [step(len(bg) + i, t) for i, t in enumerate(sc)],
                       "examples": [{"id": "902", "location": loc, "tags": [], "keyword": "Examples", "name": "", "description": "", "tableHeader": row(903, "h"),
-                                    "tableBody": [row(904, "1")]}] if outline else []}}
+                                    "tableBody": [row(904, "1"), row(905, "2")]}] if outline else []}}
     return {"uri": "u", "comments": [], "feature": {"location": loc, "tags": [], "language": "en", "keyword": "Feature", "name": "f", "description": "", "children": [b, s]}}
 
 
@@ -93,7 +99,7 @@ def types_text(bg, sc, outline):
     t = "Feature: f\n  Background:\n" + "".join(f"    {KW[k]}b{i}\n" for i, k in enumerate(bg))
     t += ("  Scenario Outline: s\n" if outline else "  Scenario: s\n") + "".join(f"    {KW[k]}s{i}\n" for i, k in enumerate(sc))
     if outline:
-        t += "    Examples:\n      | h |\n      | 1 |\n"
+        t += "    Examples:\n      | h |\n      | 1 |\n      | 2 |\n"
     return t
 
 
@@ -105,11 +111,16 @@ def _types_chunk(cases):
             try:
                 pk = Compiler().compile(types_ast(c["bg"], c["sc"], outline))
                 got = [s["type"] for s in pk[0]["steps"]]
+                if outline and [s["type"] for s in pk[1]["steps"]] != got:
+                    got = ["second row differs"] + [s["type"] for s in pk[1]["steps"]]
                 via = "dict"
                 if got == exp and len(c["bg"]) <= 1 and len(c["sc"]) <= 3:
                     d = Parser().parse(types_text(c["bg"], c["sc"], outline))
                     d["uri"] = "u"
-                    got = [s["type"] for s in Compiler().compile(d)[0]["steps"]]
+                    pks = Compiler().compile(d)
+                    got = [s["type"] for s in pks[0]["steps"]]
+                    if outline and [s["type"] for s in pks[-1]["steps"]] != got:
+                        got = ["second row differs"] + [s["type"] for s in pks[-1]["steps"]]
                     via = "text"
             except Exception as e:  # noqa: BLE001
                 got, via = type(e).__name__ + ":" + str(e)[:100], "exception"
